@@ -80,6 +80,14 @@ fn main() {
                 let r = catch_unwind(AssertUnwindSafe(|| vm2.run_count(10)));
                 println!("run_count(10) after a completed evaluation: {}", match r { Ok(x) => format!("{:?}", x.map(|o| o.map(|c| c.to_string()))), Err(_) => "<<PANIC>>".into() });
             }
+            "stale-trace" => {
+                let _ = vm.eval_text("(car '())");
+                println!("after run-time failure: trace frames = {:?}", vm.last_stacktrace().map(|t| t.frames.len()));
+                let r = vm.eval_text("(if)");
+                println!("after compile error {:?}: trace frames = {:?}", r.map(|x| x.0.to_string()).map_err(|e| e.to_string()), vm.last_stacktrace().map(|t| t.frames.len()));
+                let r = vm.eval_text(")");
+                println!("after parse error {:?}: trace frames = {:?}", r.map(|x| x.0.to_string()).map_err(|e| e.to_string()), vm.last_stacktrace().map(|t| t.frames.len()));
+            }
             "highlight-vector" => {
                 let h = marwood::syntax::ReplHighlighter::new();
                 for (t, i) in [("#(a)", 3usize), ("#(a)", 0), ("(a #(b) c)", 9), ("(a #(b) c)", 0), ("#(a (b))", 7)] {
